@@ -125,6 +125,21 @@ def introRespUnpack : List Val → Option (List Val)
           .atom sns, .atom isns, .atom plr]
   | _ => none
 
+/-- SimilarityResponsePayload.to_pack_list on attributes [identifier, preference_list, tb_overlap] -/
+def simRespPack : List Val → Option (List Val)
+  | [ident, .list prefs, .list tb] => do
+    let p ← joinBytes prefs.toList
+    let t ← joinTb tb.toList
+    some [ident, .atom (.bytes p), .atom (.bytes t)]
+  | _ => none
+
+/-- SimilarityResponsePayload.from_unpack_list -/
+def simRespUnpack : List Val → Option (List Val)
+  | [.atom (.nat ident), .atom (.bytes prefs), .atom (.bytes tb)] =>
+    (splitTb tb).map (fun t =>
+      [.atom (.nat (ident % 65536)), bytesList (chunks 20 prefs), .list (ValList.ofList t)])
+  | _ => none
+
 def toPackL (cls : String) (a : List Val) : Option (List Val) :=
   let c := short cls
   if identityClasses.contains c || identLastClasses.contains c then some a
@@ -136,10 +151,7 @@ def toPackL (cls : String) (a : List Val) : Option (List Val) :=
     let e := encConn ct
     (joinBytes prefs.toList).map (fun b =>
       [ident, l, w, .tuple [n e.1, n e.2, n 0, n 0, n 0, n 0, n 0, n 0], .atom (.bytes b)])
-  | "SimilarityResponsePayload", [ident, .list prefs, .list tb] => do
-    let p ← joinBytes prefs.toList
-    let t ← joinTb tb.toList
-    some [ident, .atom (.bytes p), .atom (.bytes t)]
+  | "SimilarityResponsePayload", a => simRespPack a
   | _, _ => none
 
 def fromUnpackL (cls : String) (ul : List Val) : Option (List Val) :=
@@ -153,9 +165,7 @@ def fromUnpackL (cls : String) (ul : List Val) : Option (List Val) :=
   | "SimilarityRequestPayload",
       [.atom (.nat ident), l, w, .tuple [c0, c1, _, _, _, _, _, _], .atom (.bytes prefs)] =>
     some [.atom (.nat (ident % 65536)), l, w, .str (decConn c0 c1), bytesList (chunks 20 prefs)]
-  | "SimilarityResponsePayload", [.atom (.nat ident), .atom (.bytes prefs), .atom (.bytes tb)] =>
-    (splitTb tb).map (fun t =>
-      [.atom (.nat (ident % 65536)), bytesList (chunks 20 prefs), .list (ValList.ofList t)])
+  | "SimilarityResponsePayload", ul => simRespUnpack ul
   | _, _ => none
 
 /-- VariablePayload (interpreted or compiled, no hooks): group 8 attributes per `bits` -/
